@@ -1,7 +1,68 @@
 import json
 import os
 
-from lib import std_flow, COQ
+from lib import COQ
+
+
+def robust_flow(ctx, pkg, mismatch_key, coq_targets=(), proof=True, run_timeout=3000, coq_timeout=2400):
+    """lib.std_flow, except that a case file whose coqc run died (no `mism` output, e.g. killed under memory
+    pressure on a loaded machine) is evaluated once more, alone, before it is reported."""
+    if proof:
+        ctx.require_proofs(extra_targets=["theories/" + t + ".vo" for t in coq_targets])
+    binpath, out = ctx.go_build(pkg)
+    if binpath is None:
+        ctx.log("harness build failed:\n" + out[-3000:])
+        ctx.failure("harness-build", "harness no longer builds against /repo: " + out[-1500:],
+                    {"broken": "go build ./%s" % pkg, "log": out[-3000:]}, no_input=True)
+        ctx.settle_l1()
+        return None
+    rc, out = ctx.go_run(binpath, ["-prop", ctx.pid, "-seed", ctx.seed, "-tier", ctx.tier, "-dir", ctx.work],
+                         timeout=run_timeout)
+    spath = os.path.join(ctx.work, "summary.json")
+    if rc != 0 or not os.path.exists(spath):
+        ctx.log("harness run failed rc=%s:\n%s" % (rc, out[-3000:]))
+        ctx.failure("harness-run", "harness run failed (rc=%s): %s" % (rc, out[-1500:]),
+                    {"broken": "harness run", "log": out[-3000:]}, no_input=True)
+        ctx.settle_l1()
+        return None
+    s = json.load(open(spath))
+    for f in s.get("failures") or []:
+        ctx.failure(f["key"], f["what"], f["replay"])
+    files = s.get("case_files") or []
+    nm = 0
+    if files:
+        res, errs = ctx.coq_cases(files, timeout=coq_timeout)
+        if errs:
+            res2, errs2 = ctx.coq_cases(sorted(errs), timeout=coq_timeout, jobs=1)
+            res.update(res2)
+            errs = errs2
+        for path, log in errs.items():
+            ctx.failure("model-eval", "Coq evaluation of %s failed: %s" % (os.path.basename(path), log[-800:]),
+                        {"broken": "correspondence evaluation " + path, "log": log[-2000:]}, no_input=True)
+        for path, idxs in res.items():
+            if not idxs:
+                continue
+            descs = [json.loads(l) for l in open(path[:-2] + ".jsonl")]
+            for i in idxs:
+                nm += 1
+                d = descs[i] if i < len(descs) else {"index": i}
+                ctx.failure(mismatch_key(d), "implementation and Coq model disagree on %s" % json.dumps(d)[:500],
+                            {"case": d, "case_file": os.path.basename(path), "index": i,
+                             "note": "observed = implementation; the Coq model (proved to meet the property) computes a different result"})
+    ctx.cov.update({
+        "evaluations": s.get("evaluations", 0),
+        "distinct_nontrivial": s.get("distinct_nontrivial", 0),
+        "rule": s.get("rule", ""),
+        "samples": s.get("samples") or [],
+        "distribution": s.get("distribution") or {},
+        "coq_case_files": len(files),
+        "model_mismatches": nm,
+        "direct_failures": len(s.get("failures") or []),
+    })
+    if s.get("extra"):
+        ctx.cov["extra"] = s["extra"]
+    ctx.settle_l1()
+    return s
 
 
 def run(ctx):
@@ -35,8 +96,7 @@ def run(ctx):
     # 2. proof leg over the regenerated table
     ctx.require_proofs(extra_targets=["theories/C07/Cases.vo"])
     # 3. correspondence + direct monitors
-    std_flow(ctx, "c07", proof=False,
-             mismatch_key=lambda d: "model-mismatch:kind-%s" % d.get("kind"))
+    robust_flow(ctx, "c07", lambda d: "model-mismatch:kind-%s" % d.get("kind"), proof=False)
     # a broken proof leg must not hide behind the known findings (which are concrete failing inputs of their own)
     r = ctx.l1
     if r is not None and not r["ok"]:
